@@ -44,7 +44,7 @@ ASSUMPTIONS = [
 ]
 
 DELIMS = ("<%", "%>", "{{", "}}", "{%", "%}", "{#", "#}")
-HAZARD_STR = ["123", "-5", "1.0", "1e5", "true", "True", "false", "null", "None", "~", "", " ", "%s", "%(x)s", "{0}", "{}", "{x}", "$x", "a: b", "- x", "'q'", '"dq"', "a\nb", "tab\t", "\\n", "ctx(x)", "result()", "<", "%", "{", "}", "é中\U0001f600", "x" * 70]
+HAZARD_STR = ["line\n", "two\n\n", "\n", "dos\r\nline", "cr\r", " lead", "trail ", "123", "-5", "1.0", "1e5", "true", "True", "false", "null", "None", "~", "", " ", "%s", "%(x)s", "{0}", "{}", "{x}", "$x", "a: b", "- x", "'q'", '"dq"', "a\nb", "tab\t", "\\n", "ctx(x)", "result()", "<", "%", "{", "}", "é中\U0001f600", "x" * 70]
 HAZARD_NUM = [0, -0.0, 0.0, 1, -1, 2**31, 2**53 + 1, 2**63 - 1, 2**63, 2**64, -(2**63) - 1, 2**70, -(2**100), 0.1, 1e16, 1.7976931348623157e308, 5e-324, 2.2250738585072014e-308, -1.5, 1e-7, 123456789.123456789]
 
 
@@ -166,14 +166,14 @@ def _pipeline(lang_, f, res, res2):
 def run_transport(scn, stats):
     V, V2 = scn["v"], scn["v2"]
     V3 = scn.get("v3", V2)
-    if isinstance(V, dict) and isinstance(V3, dict):
-        V3 = [V3]  # a mapping republished over a mapping is merged key by key (not a transport question)
+    if isinstance(V, dict) and V and isinstance(V3, dict):
+        V3 = [V3]  # a mapping republished over a non-empty mapping is merged key by key (not a transport question)
     raw = bool(scn.get("raw"))
     if raw:
         # the action result *is* the value (not a mapping that holds it): falsy results (0, false, "", [], {})
         # must arrive as they are
         V3 = V2
-        if isinstance(V, dict) and isinstance(V2, dict):
+        if isinstance(V, dict) and V and isinstance(V2, dict):
             raw = False  # (republished over a mapping it would be merged key by key, see above)
             V3 = scn.get("v3", V2)
             V3 = [V3] if isinstance(V3, dict) else V3
@@ -289,7 +289,7 @@ def twin_of(v):
 
 def strat_transport(tier):
     base = st.fixed_dictionaries({
-        "v": st.one_of(values(), st.sampled_from([0, 1, True, False, 1.0, 0.0, [0, 1], [True], {"n": 1}])),
+        "v": st.one_of(values(), st.sampled_from([0, 1, True, False, 1.0, 0.0, [0, 1], [True], {"n": 1}, {}, {}, []])),
         "v2": values(),
         "v3mode": st.sampled_from(["twin", "twin", "fresh"]),
         "v3fresh": values(),
